@@ -34,6 +34,7 @@ type Obligation struct {
 	Site    string
 	Detail  string
 	Harness string
+	NoReplay bool // engine-generated obligation without a native counterpart
 	// results
 	Res      string
 	Model    Model
